@@ -75,6 +75,9 @@ pub enum Project {
     Examples,
     BugSamples,
     StarknetTests,
+    /// /verif's own multi-module library: structs, enums, traits, impls, consts and generic
+    /// functions with plenty of lines whose order matters.
+    Playground,
 }
 impl Project {
     pub fn path(self) -> &'static str {
@@ -82,11 +85,12 @@ impl Project {
             Project::Examples => "/repo/examples",
             Project::BugSamples => "/repo/tests/bug_samples",
             Project::StarknetTests => "/repo/crates/cairo-lang-starknet/cairo_level_tests",
+            Project::Playground => "/verif/harness/projects/playground",
         }
     }
     pub fn plugins(self) -> Plugins {
         match self {
-            Project::Examples => Plugins::Default,
+            Project::Examples | Project::Playground => Plugins::Default,
             _ => Plugins::Starknet,
         }
     }
@@ -95,6 +99,7 @@ impl Project {
             Project::Examples => "examples",
             Project::BugSamples => "bug_samples",
             Project::StarknetTests => "cairo_level_tests",
+            Project::Playground => "playground",
         }
     }
     pub fn files(self) -> Vec<PathBuf> {
@@ -147,6 +152,10 @@ const EDIT_KINDS: &[&str] = &[
     "delete-line",
     "duplicate-item",
     "swap-lines",
+    "swap-similar-lines",
+    "move-line",
+    "duplicate-line",
+    "move-item",
     "break-syntax",
     "restore-original",
     "unset-override",
@@ -262,6 +271,70 @@ fn apply_edit(kind: &str, text: &str, original: &str, rng: &mut Rng, nonce: u64)
                 for (k, l) in copy.into_iter().enumerate() {
                     v.insert(e + 1 + k, l);
                 }
+            }
+            join(v)
+        }
+        "swap-similar-lines" => {
+            // Two neighbouring lines of the same indentation that both end a list element or a
+            // statement (struct members, enum variants, match arms, parameters, `let`s, `use`s):
+            // a pure permutation of ordered things.
+            let indent = |l: &str| l.len() - l.trim_start().len();
+            let listy = |l: &str| {
+                let t = l.trim_end();
+                (t.ends_with(',') || t.ends_with(';')) && !t.trim_start().starts_with("//")
+            };
+            let cands: Vec<usize> = (0..lines.len().saturating_sub(1))
+                .filter(|i| listy(lines[*i]) && listy(lines[*i + 1]) && indent(lines[*i]) == indent(lines[*i + 1]) && lines[*i].trim_end().ends_with(',') == lines[*i + 1].trim_end().ends_with(','))
+                .collect();
+            if cands.is_empty() {
+                return Some(text.to_string());
+            }
+            let i = *rng.pick(&cands);
+            let mut v = owned(&lines);
+            v.swap(i, i + 1);
+            join(v)
+        }
+        "move-line" => {
+            let mut v = owned(&lines);
+            if v.len() >= 3 {
+                let from = rng.below(v.len());
+                let l = v.remove(from);
+                // Mostly nearby: the line stays inside its construct.
+                let to = if rng.chance(3, 4) { (from + 1 + rng.below(3)).min(v.len()) } else { rng.below(v.len() + 1) };
+                v.insert(to, l);
+            }
+            join(v)
+        }
+        "duplicate-line" => {
+            let mut v = owned(&lines);
+            if !v.is_empty() {
+                let from = rng.below(v.len());
+                let l = v[from].clone();
+                let to = if rng.bool() { from + 1 } else { (from + 1 + rng.below(4)).min(v.len()) };
+                v.insert(to, l);
+            }
+            join(v)
+        }
+        "move-item" => {
+            let starts: Vec<usize> = lines.iter().enumerate().filter(|(_, l)| l.starts_with("fn ") || l.starts_with("pub fn ")).map(|(i, _)| i).collect();
+            if starts.is_empty() {
+                return Some(text.to_string());
+            }
+            let s0 = *rng.pick(&starts);
+            let Some(e) = (s0..lines.len()).find(|i| lines[*i] == "}") else {
+                return Some(text.to_string());
+            };
+            let mut v = owned(&lines);
+            let item: Vec<String> = v.drain(s0..=e).collect();
+            // To the top, the bottom, or in front of another item.
+            let others: Vec<usize> = v.iter().enumerate().filter(|(_, l)| l.starts_with("fn ") || l.starts_with("pub fn ")).map(|(i, _)| i).collect();
+            let at = match rng.below(3) {
+                0 => 0,
+                1 => v.len(),
+                _ => if others.is_empty() { v.len() } else { *rng.pick(&others) },
+            };
+            for (k, l) in item.into_iter().enumerate() {
+                v.insert(at + k, l);
             }
             join(v)
         }
@@ -435,7 +508,13 @@ pub fn c13_worker(ctx: &mut Ctx) {
         if !ctx.mine(h) {
             continue;
         }
-        let project = if ctx.tier == crate::report::Tier::Thorough && h % 5 == 4 { Project::BugSamples } else { Project::Examples };
+        let project = if ctx.tier == crate::report::Tier::Thorough && h % 5 == 4 {
+            Project::BugSamples
+        } else if h % 2 == 1 {
+            Project::Playground
+        } else {
+            Project::Examples
+        };
         let cfg = if h % 4 == 3 { Config { opt: Some((Inl::Avoid, false)), ..Config::DEFAULT } } else { Config::DEFAULT };
         ctx.begin_case(h, &format!("history {h}"));
         run_history(ctx, project, &cfg, h, steps);
@@ -449,6 +528,7 @@ pub fn c13_replay(case: &serde_json::Value) -> Result<Option<String>, String> {
     let project = match case["project"].as_str().unwrap_or("") {
         "examples" => Project::Examples,
         "bug_samples" => Project::BugSamples,
+        "playground" => Project::Playground,
         _ => return Err("unknown project".into()),
     };
     let cfg: Config = serde_json::from_value(case["cfg"].clone()).map_err(|e| e.to_string())?;
@@ -581,7 +661,10 @@ fn compile_raw(db: &RootDatabase, inputs: &[CrateInput], ids: &[cairo_lang_files
 
 pub fn c12_worker(ctx: &mut Ctx) {
     install_panic_hook();
-    let projects: Vec<Project> = ctx.tier.pick(vec![Project::Examples, Project::StarknetTests], vec![Project::Examples, Project::StarknetTests, Project::BugSamples]);
+    let projects: Vec<Project> = ctx.tier.pick(
+        vec![Project::Examples, Project::Playground, Project::StarknetTests],
+        vec![Project::Examples, Project::Playground, Project::StarknetTests, Project::BugSamples],
+    );
     let runs_per_project: u64 = ctx.tier.pick(10, 60);
     let cfgs = [Config::DEFAULT, Config { opt: Some((Inl::Avoid, false)), ..Config::DEFAULT }];
     let mut case = 0u64;
@@ -660,6 +743,7 @@ pub fn c12_replay(case: &serde_json::Value) -> Result<Option<String>, String> {
         "examples" => Project::Examples,
         "bug_samples" => Project::BugSamples,
         "cairo_level_tests" => Project::StarknetTests,
+        "playground" => Project::Playground,
         _ => return Err("unknown project".into()),
     };
     let cfg: Config = serde_json::from_value(case["cfg"].clone()).map_err(|e| e.to_string())?;
